@@ -593,6 +593,25 @@ func extractAll() {
 		addBool("eioWsClientReadLimitLifted", has("engine.io/transport/websocket/client.go", "ClientTransport", "Handshake", "SetReadLimit"),
 			"engine.io/transport/websocket/client.go")
 	}
+	// ---- server-side ack ids are drawn from one counter per namespace (unique across the successive sockets of a client)
+	{
+		rel := "server_socket.go"
+		fd := findFunc(load(rel), "serverSocket", "registerAckHandler")
+		fromNsp := false
+		if fd != nil {
+			ast.Inspect(fd, func(x ast.Node) bool {
+				if c, ok := x.(*ast.CallExpr); ok {
+					if se, ok := c.Fun.(*ast.SelectorExpr); ok && se.Sel.Name == "nextAckID" {
+						if inner, ok := se.X.(*ast.SelectorExpr); ok && inner.Sel.Name == "nsp" {
+							fromNsp = true
+						}
+					}
+				}
+				return true
+			})
+		}
+		addBool("sioServerAckIdFromNamespace", fromNsp, rel)
+	}
 	// ---- Socket.IO packet types
 	{
 		p := "parser/packet.go"
